@@ -43,6 +43,8 @@ class Extractor:
         self.cfg = CFG(fn.node)
         self.rd = ReachingDefs(self.cfg)
         self.unknown_helpers: List[str] = []
+        # local names bound to a HashComputer instance (HashComputer.compute uses `self = HashComputer(...)`)
+        self.computers = {"self"}
         # local names bound to a hashlib object
         self.hashers = set()
         for n in self.cfg.live:
@@ -51,6 +53,8 @@ class Extractor:
                     dn = dotted(d.value.func) or ""
                     if dn.startswith("hashlib."):
                         self.hashers.add(d.name)
+                    if dn.split(".")[-1] == tagclass:
+                        self.computers.add(d.name)
 
     def node_of(self, astnode) -> Node:
         ns = self.cfg.nodes_of(astnode)
@@ -63,9 +67,9 @@ class Extractor:
 
     def is_sink(self, c: ast.Call) -> bool:
         d = dotted(c.func) or ""
-        if d == "self._hashupdate":
-            return True
         parts = d.split(".")
+        if len(parts) == 2 and parts[0] in self.computers and parts[1] == "_hashupdate":
+            return True
         if parts[-1] == "update" and len(parts) >= 2:
             base = ".".join(parts[:-1])
             if base in self.hashers or base == "self._hasher":
@@ -140,7 +144,7 @@ class Extractor:
                 if len(c.args) != 1:
                     raise Undecided(f"hasher sink with {len(c.args)} arguments at {self.fn.key}:{s.lineno}")
                 return [["emit", self.describe(c.args[0], at)]]
-            if d == "self.update":
+            if len(d.split(".")) == 2 and d.split(".")[0] in self.computers and d.split(".")[1] == "update":
                 kw = {k.arg: src(k.value) for k in c.keywords}
                 t = ["rec", self.canon(c.args[0], at)]
                 if kw:
@@ -153,7 +157,7 @@ class Extractor:
                         key = self.canon(k.value, at)
                     if k.arg == "reverse":
                         key += f" reverse={src(k.value)}"
-                return [["sort", src(c.func.value), key]]
+                return [["sort", self.canon(c.func.value, at), key]]
             if d.startswith("self.") and d.count(".") == 1:
                 self.unknown_helpers.append(d)
             return [["call", self.canon(c, at)]]
@@ -175,7 +179,7 @@ class Extractor:
             # helper calls hidden in assignments are inlined by canonicalisation; calls with hashing
             # effects in an assignment are not a shape we model
             for c in walk_local(s):
-                if isinstance(c, ast.Call) and (self.is_sink(c) or (dotted(c.func) == "self.update")):
+                if isinstance(c, ast.Call) and (self.is_sink(c) or ((dotted(c.func) or "").split(".")[-1] == "update" and (dotted(c.func) or "").split(".")[0] in self.computers and (dotted(c.func) or "").count(".") == 1)):
                     raise Undecided(f"hasher call inside an assignment at {self.fn.key}:{s.lineno}")
             return []
         if isinstance(s, (ast.Pass, ast.Import, ast.ImportFrom, ast.Global, ast.Nonlocal, ast.Assert)):
